@@ -40,6 +40,7 @@ struct ExecOpts {
 struct ExecResult {
   std::vector<std::vector<uint8_t>> before, after;  // per buffer
   bool guards_ok = true;
+  unsigned csr_before = 0, csr_after = 0;  // MXCSR control bits (rounding mode, flush-to-zero, denormals-are-zero, masks)
 };
 
 inline int root_of(const ApiCase& c, int i) { while (c.bufs[i].alias_of >= 0) i = c.bufs[i].alias_of; return i; }
@@ -69,7 +70,9 @@ inline void execute(const ApiCase& c, const ExecOpts& o, ExecResult& r) {
     ptr[i] = store[root_of(c, i)].p;
     r.before[i].assign(ptr[i], ptr[i] + c.bufs[i].bytes);
   }
+  r.csr_before = __builtin_ia32_stmxcsr() & 0xFFC0u;
   c.call(ptr.data());
+  r.csr_after = __builtin_ia32_stmxcsr() & 0xFFC0u;
   r.guards_ok = true;
   for (int i = 0; i < nb; ++i) {
     r.after[i].assign(ptr[i], ptr[i] + c.bufs[i].bytes);
